@@ -1436,7 +1436,15 @@ impl TestTextSelection for TextSelectionSet {
                 }
                 true
             }
-            TextSelectionOperator::Overlaps {
+            TextSelectionOperator::Equals {
+                all: true,
+                negate: false,
+            }
+            | TextSelectionOperator::InSet {
+                all: true,
+                negate: false,
+            }
+            | TextSelectionOperator::Overlaps {
                 all: true,
                 negate: false,
             }
@@ -1492,10 +1500,7 @@ impl TestTextSelection for TextSelectionSet {
                 .leftmost()
                 .unwrap()
                 .test(operator, reftextsel, resource),
-            TextSelectionOperator::SameRange {
-                all: true,
-                negate: false,
-            } => {
+            TextSelectionOperator::SameRange { negate: false, .. } => {
                 self.leftmost()
                     .unwrap()
                     .test(operator, reftextsel, resource)
@@ -1516,10 +1521,10 @@ impl TestTextSelection for TextSelectionSet {
             | TextSelectionOperator::Succeeds { negate: true, .. }
             | TextSelectionOperator::SameBegin { negate: true, .. }
             | TextSelectionOperator::SameEnd { negate: true, .. }
-            | TextSelectionOperator::InSet { negate: true, .. } => {
+            | TextSelectionOperator::InSet { negate: true, .. }
+            | TextSelectionOperator::SameRange { negate: true, .. } => {
                 !self.test(&operator.toggle_negate(), reftextsel, resource)
             }
-            _ => unreachable!("unknown operator+modifier combination"),
         }
     }
 
@@ -1605,7 +1610,15 @@ impl TestTextSelection for TextSelectionSet {
                 }
                 true
             }
-            TextSelectionOperator::Overlaps {
+            TextSelectionOperator::Equals {
+                all: true,
+                negate: false,
+            }
+            | TextSelectionOperator::InSet {
+                all: true,
+                negate: false,
+            }
+            | TextSelectionOperator::Overlaps {
                 all: true,
                 negate: false,
             }
@@ -1661,10 +1674,7 @@ impl TestTextSelection for TextSelectionSet {
                 .leftmost()
                 .unwrap()
                 .test_set(operator, refset, resource),
-            TextSelectionOperator::SameRange {
-                all: true,
-                negate: false,
-            } => {
+            TextSelectionOperator::SameRange { negate: false, .. } => {
                 self.leftmost()
                     .unwrap()
                     .test_set(operator, refset, resource)
@@ -1685,10 +1695,10 @@ impl TestTextSelection for TextSelectionSet {
             | TextSelectionOperator::Succeeds { negate: true, .. }
             | TextSelectionOperator::SameBegin { negate: true, .. }
             | TextSelectionOperator::SameEnd { negate: true, .. }
-            | TextSelectionOperator::InSet { negate: true, .. } => {
+            | TextSelectionOperator::InSet { negate: true, .. }
+            | TextSelectionOperator::SameRange { negate: true, .. } => {
                 !self.test_set(&operator.toggle_negate(), refset, resource)
             }
-            _ => unreachable!("unknown operator+modifier combination"),
         }
     }
 }
@@ -1812,10 +1822,10 @@ impl TestTextSelection for TextSelection {
             | TextSelectionOperator::Succeeds { negate: true, .. }
             | TextSelectionOperator::SameBegin { negate: true, .. }
             | TextSelectionOperator::SameEnd { negate: true, .. }
-            | TextSelectionOperator::InSet { negate: true, .. } => {
+            | TextSelectionOperator::InSet { negate: true, .. }
+            | TextSelectionOperator::SameRange { negate: true, .. } => {
                 !self.test(&operator.toggle_negate(), reftextsel, resource)
             }
-            _ => unreachable!("unknown operator+modifier combination"),
         }
     }
     /// This method is called to test whether a specific spatial relation (as expressed by the
@@ -1885,7 +1895,15 @@ impl TestTextSelection for TextSelection {
                 }
                 false
             }
-            TextSelectionOperator::Overlaps {
+            TextSelectionOperator::Equals {
+                all: true,
+                negate: false,
+            }
+            | TextSelectionOperator::InSet {
+                all: true,
+                negate: false,
+            }
+            | TextSelectionOperator::Overlaps {
                 all: true,
                 negate: false,
             }
@@ -2004,10 +2022,7 @@ impl TestTextSelection for TextSelection {
                 }
                 self.end == refset.rightmost().unwrap().end()
             }
-            TextSelectionOperator::SameRange {
-                all: true,
-                negate: false,
-            } => {
+            TextSelectionOperator::SameRange { negate: false, .. } => {
                 if refset.is_empty() {
                     return false;
                 }
@@ -2026,10 +2041,10 @@ impl TestTextSelection for TextSelection {
             | TextSelectionOperator::Succeeds { negate: true, .. }
             | TextSelectionOperator::SameBegin { negate: true, .. }
             | TextSelectionOperator::SameEnd { negate: true, .. }
-            | TextSelectionOperator::InSet { negate: true, .. } => {
+            | TextSelectionOperator::InSet { negate: true, .. }
+            | TextSelectionOperator::SameRange { negate: true, .. } => {
                 !self.test_set(&operator.toggle_negate(), refset, resource)
             }
-            _ => unreachable!("unknown operator+modifier combination"),
         }
     }
 }
